@@ -17,6 +17,7 @@ import os
 import re
 import sys
 
+import numpy as np
 import z3
 
 from .. import common
@@ -326,9 +327,9 @@ def run_spec(spec):
                 out.setdefault("unconfirmed", []).append({"what": where, "text": text, "pre": repr(pre)})
     out["havoc_forks"] = nforks
     # second part: no shared mutable state between the returned program, the tables and a second load
-    sh = shared_state(spec, lv, w)
+    sh, ctext, cvals = shared_state(spec, lv, w)
     if sh:
-        out.update(result="violation", cex={"what": sh, "text": text, "values": None, "observed": sh, "expected": "disjoint mutable containers", "pre": []})
+        out.update(result="violation", cex={"what": sh, "text": ctext, "values": cvals, "observed": sh, "expected": "disjoint mutable containers", "pre": "shared"})
     return out
 
 
@@ -336,12 +337,45 @@ def _d(o):
     return o[0] if o[0] == "program" else "%s(%s)" % (o[1], o[2][:100])
 
 
-def shared_state(spec, lv, w):
-    """concrete-structure check on one instantiation of the skeleton (identity walk, not a solver query)"""
+def package_state_ids():
+    """ids of the mutable containers reachable from module globals and class attributes of the blackbird package
+    (whatever they are called: a returned program must not hold any of them)"""
+    acc = {}
+    for mname, m in list(sys.modules.items()):
+        if not (mname == "blackbird" or mname.startswith("blackbird.")) or ".tests" in mname:
+            continue
+        for k, v in list(vars(m).items()):
+            if k.startswith("__"):
+                continue
+            if isinstance(v, (dict, list, set, tuple, np.ndarray)):
+                _snap.mutable_ids(v, acc)
+            elif isinstance(v, type) and getattr(v, "__module__", "") == mname:
+                for ck, cv in list(vars(v).items()):
+                    if isinstance(cv, (dict, list, set, tuple, np.ndarray)):
+                        _snap.mutable_ids(cv, acc)
+    return acc
+
+
+def _poison(prog):
+    """change every mutable container reachable from a returned program in place"""
+    for obj in list(_snap.mutable_ids(prog).values()):
+        try:
+            if isinstance(obj, dict):
+                obj["__poison__"] = -97
+            elif isinstance(obj, list):
+                obj.append("__poison__")
+            elif isinstance(obj, set):
+                obj.add(-97)
+            elif isinstance(obj, np.ndarray) and obj.size and obj.dtype != object:
+                obj.flat[0] = -97
+        except Exception:  # noqa
+            pass
+
+
+def shared_state_text(text):
+    """concrete-structure check on one concrete script (identity walk + change-in-place, not a solver query)"""
     import blackbird
     import blackbird.auxiliary as aux
-    vals = [(0.5 + i if k == "float" else 3 + i) for i, (_, k, _) in enumerate(lv.vars)]
-    text = gen(spec, skel.Leaves(values=vals))["text"]
     try:
         p1 = blackbird.loads(text)
         p2 = blackbird.loads(text)
@@ -356,9 +390,35 @@ def shared_state(spec, lv, w):
     for tbl in (aux._VAR, aux._PARAMS):
         if id(tbl) in i1:
             return "the returned program shares the module table %s" % type(tbl).__name__
+    pk = package_state_ids()
+    inpk = set(i1) & set(pk)
+    if inpk:
+        return "the returned program holds module-level / class-level mutable objects of the package: %s" % sorted(type(pk[k]).__name__ for k in inpk)
     if len(aux._VAR) or len(aux._PARAMS):
         return "tables are not empty after a successful load: %r %r" % (dict(aux._VAR), list(aux._PARAMS))
+    # whatever channel there may be: change every container of the first program in place, load again, compare with the
+    # content the first program had
+    s1 = _snap.program(p1)
+    _poison(p1)
+    _poison(p2)
+    try:
+        p3 = blackbird.loads(text)
+    except Exception as e:  # noqa
+        return "after the programs returned by earlier loads were modified in place, the same script raises %s: %s" % (type(e).__name__, e)
+    d = _snap.diff(s1, _snap.program(p3))
+    if d:
+        return "after the programs returned by earlier loads were modified in place, the same script loads differently: %s" % d[0][0]
     return None
+
+
+def shared_state_vals(spec, vals):
+    text = gen(spec, skel.Leaves(values=vals))["text"]
+    return shared_state_text(text), text
+
+
+def shared_state(spec, lv, w):
+    vals = [(0.5 + i if k == "float" else 3 + i) for i, (_, k, _) in enumerate(lv.vars)]
+    return shared_state_vals(spec, vals) + (vals,)
 
 
 FAILURES = ["Vac | name_that_is_not_defined_anywhere",      # BlackbirdSyntaxError (undefined name)
@@ -448,6 +508,14 @@ sys.exit(c12.replay(%(spec)r, %(vals)r, %(pre)r))
 
 
 def replay(spec, vals, pre):
+    if pre == "shared":
+        sh, text = shared_state_vals(spec, vals)
+        if not sh:
+            print("no shared mutable state")
+            return 0
+        print("script (loaded twice):\n" + text)
+        print("observed:", sh)
+        return 1
     r = concrete_history(spec, vals, [tuple(p) for p in pre])
     if r is None:
         print("outcome is independent of the earlier load")
@@ -968,10 +1036,14 @@ def static_state_scan(rep):
                 val = node.value
                 tg = node.targets[0] if isinstance(node, ast.Assign) else node.target
                 name = getattr(tg, "id", None)
-                if isinstance(val, (ast.Dict, ast.List, ast.Set, ast.ListComp, ast.DictComp)) or (
-                        isinstance(val, ast.Call) and getattr(val.func, "id", "") in ("dict", "list", "set", "defaultdict")):
+                if val is None:
+                    continue
+                # a mutable literal / constructor anywhere inside the value (also inside a tuple or a call)
+                if any(isinstance(n, (ast.Dict, ast.List, ast.Set, ast.ListComp, ast.DictComp, ast.SetComp)) or (
+                        isinstance(n, ast.Call) and getattr(n.func, "id", getattr(n.func, "attr", "")) in ("dict", "list", "set", "defaultdict", "OrderedDict", "deque", "Counter"))
+                       for n in ast.walk(val)):
                     found.append("%s:%s" % (m, name))
-    known = {"auxiliary.py:_VAR", "auxiliary.py:_PARAMS", "listener.py:PYTHON_TYPES", "listener.py:NUMPY_TYPES", "auxiliary.py:_SYMPY_FUNCTIONS"}
+    known = {"auxiliary.py:_VAR", "auxiliary.py:_PARAMS", "listener.py:PYTHON_TYPES", "listener.py:NUMPY_TYPES", "auxiliary.py:_SYMPY_FUNCTIONS", "utils.py:Command"}
     extra = sorted(set(found) - known)
     rep.extra["module_level_mutables"] = sorted(found)
     rep.obligation("module-level mutable state = {_VAR, _PARAMS} + constant tables (AST scan)", "holds" if not extra else "inconclusive",
